@@ -240,9 +240,18 @@ def cubic_spline(
         a = inputs_b[quadratic_mask]
         b = inputs_c[quadratic_mask]
         c = inputs_d[quadratic_mask] - inputs[quadratic_mask]
-        # Numerically stable root, also valid when a == 0 (locally linear segment).
-        alpha = (2 * c) / (-b - torch.sqrt(b.pow(2) - 4 * a * c))
+        # Numerically stable root, also valid when a == 0 (locally linear segment).  The
+        # radicand vanishes where the bin's derivative does (a flat end of the bin), so
+        # rounding can make it slightly negative.
+        radicand = torch.clamp(b.pow(2) - 4 * a * c, min=0)
+        alpha = (2 * c) / (-b - torch.sqrt(radicand))
         outputs[quadratic_mask] = alpha + input_left_cumwidths[quadratic_mask]
+
+        # The root lies in its bin; rounding can push it slightly outside, where the
+        # derivative of a nearly flat bin may be evaluated as non-positive.
+        outputs = torch.min(
+            torch.max(outputs, input_left_cumwidths), input_right_cumwidths
+        )
 
         shifted_outputs = outputs - input_left_cumwidths
         logabsdet = -torch.log(
